@@ -124,6 +124,10 @@ type engineFix struct {
 	temporal bool
 	iv       *ordabs.Obj
 	tAdds    []string // "store-name:fact@interval-id" for every temporal Add
+	// tRefuseAfter: the main temporal store accepts that many new facts and then refuses every further one with
+	// its interval-limit error (-1: never)
+	tRefuseAfter int
+	tAccepted    int
 }
 
 func (e *engineFix) newStore(name string) *ordabs.Obj {
@@ -214,7 +218,8 @@ func newEngineFix(c *core.Ctx, rule string, prog absProgram, createdLimit int64)
 }
 
 func newEngineFixMode(c *core.Ctx, rule string, prog absProgram, createdLimit int64, temporal bool) *engineFix {
-	e := &engineFix{c: c, in: ordabs.New(c.Prog), k: &astKit{c: c, ok: true}, ck: newConstKit(c, rule), stores: map[*ordabs.Obj]factSet{}, prog: prog, idb: map[string]bool{}, temporal: temporal}
+	e := &engineFix{c: c, in: ordabs.New(c.Prog), k: &astKit{c: c, ok: true}, ck: newConstKit(c, rule), stores: map[*ordabs.Obj]factSet{}, prog: prog, idb: map[string]bool{}, temporal: temporal, tRefuseAfter: -1}
+	e.in.Globals = map[string]ordabs.Value{"factstore.ErrIntervalLimitExceeded": ordabs.ErrVal{Tag: "ErrIntervalLimitExceeded"}}
 	if !e.ck.ok {
 		return nil
 	}
@@ -264,6 +269,12 @@ func newEngineFixMode(c *core.Ctx, rule string, prog absProgram, createdLimit in
 				e.tAdds = append(e.tAdds, o.Name+":"+f+"@"+id)
 				if s[f] {
 					return []ordabs.Value{false, nil}, nil
+				}
+				if o.Name == "temporal" && e.tRefuseAfter >= 0 {
+					if e.tAccepted >= e.tRefuseAfter {
+						return []ordabs.Value{false, ordabs.ErrVal{Tag: "ErrIntervalLimitExceeded"}}, nil
+					}
+					e.tAccepted++
 				}
 				s[f] = true
 				return []ordabs.Value{true, nil}, nil
